@@ -228,7 +228,7 @@ theorem offDiag3 (r12 r13 r21 r23 r31 r32 : ℝ) :
 
 /-- **C02 (the shortcut, as written in the source).** `Gen.mcNoCorrelation` is the translation of
     the test in `if <test>: return sample_vector` of `correlate_samples` (regenerated on every
-    run by `vf/tr/mc.py`).  On a unit-diagonal matrix of three (two) sources it holds exactly when
+    run by `vf/tr/mccorr.py`).  On a unit-diagonal matrix of three (two) sources it holds exactly when
     EVERY off-diagonal entry is zero — so the Cholesky step is skipped only when no correlation
     at all is present, never because non-zero correlations happen to cancel. -/
 theorem C02_shortcut_generated (r12 r13 r21 r23 r31 r32 : ℝ) :
